@@ -1,5 +1,5 @@
 CONSTANTS Names = {"default", "v0", "legacy"}
-          Caps = {2, 3, 4, 5}
+          Caps = {2, 3, 4}
           Data = {0, 97}
 SPECIFICATION Spec
 INVARIANTS Sound Safety
